@@ -67,7 +67,7 @@ func runC14(c map[string]interface{}) []Event {
 	}
 	shDec := func(v interface{}) float64 { return float64(num(v)) * f }
 	P := buildOperand(pm["polys"], str(pm["t"]), 1/f)
-	e := Event{"ev": "clip", "pieces": []interface{}{}, "empty": true, "again": false}
+	e := Event{"ev": "clip", "pieces": []interface{}{}, "empty": true, "again": false, "dense": false}
 	e["out"] = safely(func() {
 		var res geom.Linear
 		if ml, _ := c["ml"].(bool); ml {
@@ -96,6 +96,31 @@ func runC14(c map[string]interface{}) []Event {
 			res2 = geom.LineString(decPath(arr(c["lines"])[0], shDec)).Clip(P)
 		}
 		e["again"] = fmt.Sprint(res2) == fmt.Sprint(res)
+		// a line is the set of its points: the same single line with every segment cut into 257 pieces (more vertices than
+		// any plausible working buffer) is clipped to the same total length, as a line string and as a one-member multi-line
+		e["dense"] = true
+		if ml, _ := c["ml"].(bool); !ml && f == 1 {
+			l := geom.LineString(decPath(arr(c["lines"])[0], shDec))
+			var d geom.LineString
+			for i := 0; i+1 < len(l); i++ {
+				for k := 0; k < 257; k++ {
+					t := float64(k) / 257
+					d = append(d, geom.Point{X: l[i].X + (l[i+1].X-l[i].X)*t, Y: l[i].Y + (l[i+1].Y-l[i].Y)*t})
+				}
+			}
+			d = append(d, l[len(l)-1])
+			total := func(x geom.Linear) float64 {
+				m, _ := x.(geom.MultiLineString)
+				return m.Length()
+			}
+			want := total(res)
+			for _, got := range []float64{total(d.Clip(P)), total(geom.MultiLineString{d}.Clip(P))} {
+				if math.Abs(got-want) > 1e-9*(1+want) {
+					e["dense"] = false
+					e["densenote"] = fmt.Sprintf("dense %v plain %v", got, want)
+				}
+			}
+		}
 		var pieces []interface{}
 		n := 0
 		for _, pc := range out {
